@@ -124,7 +124,6 @@ Definition in_domain_C01 (i : ir) : bool :=
 
 Inductive c01_class : Type :=
 | K01_no_entries              (* neither parameters nor a return entry: the text has no ReST token, it is read as numpydoc *)
-| K01_return_only             (* a return entry without parameters: the parser raises AttributeError *)
 | K01_entry_vanishes          (* an entry with neither prose nor type is not written at all *)
 | K01_type_only_default_lost  (* type without prose: the default is only ever written into prose *)
 | K01_prose_only_type_invented(* prose without type: the type is invented from the default *)
@@ -144,7 +143,6 @@ Inductive c01_class : Type :=
 Definition c01_class_name (k : c01_class) : str :=
   match k with
   | K01_no_entries => L "no-entries-read-as-numpydoc"
-  | K01_return_only => L "return-only-raises"
   | K01_entry_vanishes => L "entry-without-prose-and-type-vanishes"
   | K01_type_only_default_lost => L "type-without-prose-loses-default"
   | K01_prose_only_type_invented => L "prose-without-type-invents-type"
@@ -339,7 +337,6 @@ Definition finding_class_C01_rest (word_wrap keep_sentence : bool) (i : ir) : op
   else
   match ir_params i, fld_opt (ir_returns i) with
   | [], None => Some K01_no_entries
-  | [], Some _ => Some K01_return_only
   | ps, r =>
     if negb (match ir_doc i with Has d => str_eqb (strip d) d | _ => false end) then Some K01_summary_shape
     else
